@@ -518,6 +518,10 @@ def fam_gates(seed, maxk, gates=None, dirs=("fwd", "rev"), faults=("none", "canc
                     d = dirs[i % len(dirs)]
                     i += 1
                     cfg = {"dir": d, "gates": [g]}
+                    if g == "srv.tx.lock":
+                        # per stream: holding the point as a whole would hold the settings frame (stream id -1),
+                        # i.e. the opening of the tunnel itself
+                        cfg["gates"] = [g + "@1", g + "@2", g + "@9"]
                     p = {"kind": pol, "seed": seed, "max": 600}
                     if fault == "cancel":
                         p.update({"allK": True, "maxK": maxk or 6, "faults": [{"at": 0, "step": {"do": "cancel", "rpc": 1}}]})
